@@ -57,6 +57,8 @@ var specs = []Spec{
 	{"x/perpetual/keeper", "Keeper.CheckAndLiquidateUnhealthyPosition", "perpLiquidateGuards", false, true, "if mtp.MtpHealth.LTE(safetyFactor)"},
 	{"x/leveragelp/keeper", "Keeper.ForceCloseLong", "lpCloseRepay", false, true, "collateralLeft :="},
 	{"x/commitment/keeper", "Keeper.UncommitTokens", "uncommitTotal", false, true, "k.SetParams(ctx, params)"},
+	{"x/perpetual/keeper", "Keeper.SendToAmmPool", "sendToAmmPool", true, false, ""},
+	{"x/perpetual/keeper", "Keeper.SendFromAmmPool", "sendFromAmmPool", true, false, ""},
 	{"x/stablestake/keeper", "msgServer.Bond", "bondShares", false, true, "shareCoins :="},
 	{"x/stablestake/keeper", "msgServer.Unbond", "unbondAmount", false, true, "depositDenom :="},
 	{"x/tradeshield/keeper", "msgServer.CancelSpotOrders", "cancelSpotBatchBody", false, true, ""},
@@ -66,8 +68,8 @@ var specs = []Spec{
 	{"x/leveragelp/keeper", "Keeper.ProcessOpenLong", "lpOpenHealthGuards", false, true, "position.LeveragedLpAmount ="},
 	{"x/perpetual/types", "CalcFundingRate", "calcFundingRate", false, false, ""},
 	{"x/stablestake/types", "Debt.GetTotalLiablities", "debtTotalLiabilities", false, false, ""},
-	{"x/amm/keeper", "Keeper.InternalSwapExactAmountIn", "swapExactInGuards", false, true, ""},
-	{"x/amm/keeper", "Keeper.InternalSwapExactAmountOut", "swapExactOutGuards", false, true, ""},
+	{"x/amm/keeper", "Keeper.InternalSwapExactAmountIn", "swapExactInGuards", false, true, "k.TrackSlippage("},
+	{"x/amm/keeper", "Keeper.InternalSwapExactAmountOut", "swapExactOutGuards", false, true, "k.TrackSlippage("},
 }
 
 // windowFrom (prefix mode): the translation starts at the first top-level statement whose source text contains this string instead of at
